@@ -169,7 +169,11 @@ class Program(object):
             if value.is_address():
                 self.symbol_table[symbol] = self.statements[value.int].code_pkg.address
             elif value.is_address_expression():
-                self.symbol_table[symbol] = value.calculate_address_offset(self.statements)
+                try:
+                    self.symbol_table[symbol] = value.calculate_address_offset(self.statements)
+                except (ValueTypeError, ZeroDivisionError) as error:
+                    defined_at = next(statement for statement in self.statements if statement.label == symbol)
+                    raise TranslationError(str(error), defined_at)
 
         # Find the origin and name of the project
         for statement in self.statements:
